@@ -41,7 +41,8 @@ ASSUMPTIONS = [
 ]
 CONVEX_CLASSES = ["lin_inactive", "lin_active", "lin_mixed", "lin_weak", "lin_dup", "lin_infeas_start", "ball", "parab",
                   "nonquad_f", "bound_front", "bound_front_scaled"]
-ALL_CLASSES = CONVEX_CLASSES + ["nonconvex"]
+SEQ_CLASSES = ["seq_al", "seq_alternating", "seq_front"]
+ALL_CLASSES = CONVEX_CLASSES + ["nonconvex"] + SEQ_CLASSES
 REQUIRED = {
     "all": dict([("class:" + c, 16) for c in ALL_CLASSES] + [
         ("returned", 160), ("kkt_checked", 160), ("trace_snapshots", 1500), ("xstar_checked", 140), ("enum_checked", 50),
@@ -50,6 +51,12 @@ REQUIRED = {
         ("returned_penalty_scaling_1", 10), ("returned_penalty_scaling_gt1", 80), ("returned_nonconvex", 8),
         ("second_order_steps_accepted", 100), ("returned_params_p", 40), ("returned_warm_start", 15),
         ("returned_front_end_scaled", 10), ("returned_front_end_unscaled", 8),
+        ("sequences", 40), ("seq_steps_returned", 150),
+        ("seq_cold_steps_p_changed:al", 30), ("seq_warm_steps_p_changed:al", 30),
+        ("seq_cold_steps_p_changed:front", 15), ("seq_warm_steps_p_changed:front", 15),
+        ("seq_cold_steps_p_changed:alternating", 15), ("seq_steps_multipliers_carried_over", 30),
+        ("seq_steps_multipliers_reset", 20), ("seq_steps_constraint_data_changed", 60), ("seq_xstar_checked", 120),
+        ("seq_enum_checked", 30),
     ]),
 }
 WATCHDOG_S = {"quick": 1800, "thorough": 4 * 3600}
@@ -76,6 +83,30 @@ def build_cases(tier, seed):
     nmax = 8 if quick else 12
     cases = []
     gi = 0
+    seq_per = {"seq_al": 32, "seq_alternating": 16, "seq_front": 24}
+    if not quick:
+        seq_per = {k: v * 28 for k, v in seq_per.items()}
+    for cls, cnt in seq_per.items():
+        for i in range(cnt):
+            s = derive_seed(seed, PROPERTY, cls, i)
+            rng = rng_of(derive_seed(s, "params"))
+            c = {"cls": cls, "seed": s, "group": "s%d" % (gi % 32), "cost": 3.0}
+            gi += 1
+            c.update(_settings(i, rng))
+            c["penalty_scaling"] = [4.0, 10.0, 1.5, 4.0][(i // 2) % 4]      # sequences need returns: no penalty_scaling = 1
+            c["n"] = int(rng.integers(2, min(nmax, 8) + 1))
+            c["steps"] = int(rng.integers(3, 6))
+            c["warm"] = bool((i // 2) % 2)                                    # decorrelated from second_order = i % 2
+            c["carry_multipliers"] = bool((i // 4) % 2 == 0)
+            c["fkind"] = ["quad", "quad", "logcosh", "quartic"][i % 4] if cls != "seq_front" else ["quad", "logcosh"][(i // 4) % 2]
+            if cls == "seq_front":
+                c["n"] = max(3, c["n"])
+                c["scaled"] = bool((i // 8) % 2) if cnt > 8 else bool(i % 2)
+                c["decades"] = int(rng.choice([1, 3, 6])) if c["scaled"] else 0
+                c["css"] = float(rng.choice([1.0, 0.5, 4.0])) if c["scaled"] else 1.0
+            else:
+                c["m"] = int(rng.integers(1, 6))
+            cases.append(c)
     for cls, cnt in per.items():
         for i in range(cnt):
             s = derive_seed(seed, PROPERTY, cls, i)
@@ -372,8 +403,224 @@ def _solve_front_end(case, res):
     return res
 
 
+def _check_general_return(res, gen, orc, P, x, lam, kap, kappa0, tol, detail):
+    """KKT + planted optimum (+ enumeration) for one normal return, evaluated with the harness's own functions for P."""
+    gf = gen.grad_f(P, x)
+    gmag = float(onp.linalg.norm(onp.abs(P["A"]) @ onp.abs(x) + onp.abs(P["b"]) + onp.abs(gen.f_extra_grad(P, x))))
+    cv = gen.cons(P, x)
+    J = gen.jac(P, x)
+    al, stat = orc.kkt_check(res, tol, x, lam, gf, cv, J, kap, kappa0, gmag, gen.cons_mag(P, x), prefix="seq_")
+    xs = P["xstar"]
+    R = orc.xstar_radius(P["mu"], al, P["lamstar"]) + 64 * orc.EPS * (1 + onp.linalg.norm(xs))
+    res.bound("seq_xstar_distance", float(onp.linalg.norm(x - xs)), R, dict(detail, x=x[:12], xstar=xs[:12]))
+    res.count("seq_xstar_checked")
+    m = len(P["cons"])
+    if P["fkind"] == "quad" and m <= 6:
+        G = onp.array([cc["g"] for cc in P["cons"]])
+        h = onp.array([cc["h"] for cc in P["cons"]])
+        xe, le, cnt = orc.enumerate_active_sets(P["A"], P["b"], G, h)
+        if xe is None or onp.linalg.norm(xe - xs) > 1e-7 * (1 + onp.linalg.norm(xs)):
+            res.inconclusive("oracles disagree: active-set enumeration vs planted optimum")
+        else:
+            res.bound("seq_enum_distance", float(onp.linalg.norm(x - xe)), R, dict(detail, x=x[:12], x_enum=xe[:12]))
+            res.count("seq_enum_checked")
+
+
+def _solve_al_sequence(case, res):
+    """One (seq_al) or two alternately used (seq_alternating) ConstrainedObjective instances, each reused for several
+    load steps with objective data (p[0]) and constraint data (p[2]) changing; start = previous solution."""
+    import jax.numpy as np
+    from optimism import AlSolver, EquationSolver as es, Objective
+    from optimism.ConstrainedObjective import ConstrainedObjective
+    from vlib.gen import c04_problems as gen
+    from vlib.oracles import c04_kkt as orc
+
+    rng = rng_of(case["seed"])
+    alternating = case["cls"] == "seq_alternating"
+    tag = "alternating" if alternating else "al"
+    tol = case["tol"]
+    alS = AlSolver.get_settings(penalty_scaling=case["penalty_scaling"], use_second_order_update=case["second_order"],
+                                num_initial_low_order_iterations=case["n_low"], tol=tol,
+                                target_constraint_decrease_factor=case["decrease_factor"], max_al_iters=100)
+    subS = es.get_settings(tol=tol * case["sub_tol_factor"], debug_info=False)
+    buf = io.StringIO()
+    insts = []
+    for j in range(2 if alternating else 1):
+        n = case["n"] if j == 0 else int(rng.integers(2, 9))
+        m = case["m"] if j == 0 else int(rng.integers(1, 6))
+        P, steps = gen.make_al_sequence(rng, n, case["fkind"], m, case["steps"])
+        lam0, kappa0 = gen.multipliers_and_penalties(rng, m)
+        f, c = gen.jax_funcs_sequence(P)
+        st0 = steps[0]
+        p0 = Objective.Params(np.array(st0["b"]), None, np.array(st0["h"]), None, np.array(0.0))
+        with contextlib.redirect_stdout(buf):
+            obj = ConstrainedObjective(f, c, np.array(P["x0"]), p0, np.array(lam0), np.array(kappa0))
+        insts.append({"P": P, "steps": steps, "obj": obj, "kappa0": kappa0, "x": np.array(P["x0"]), "cur": st0, "m": m, "alive": True})
+    res.count("sequences")
+    nret = 0
+    for k in range(1, case["steps"] + 1):
+        for inst in insts:
+            if not inst["alive"]:
+                continue
+            obj, P, st = inst["obj"], inst["P"], inst["steps"][k]
+            Pk = gen.step_problem(P, st)
+            Pk["xstar"], Pk["lamstar"] = st["xstar"], st["lamstar"]
+            p = Objective.Params(np.array(st["b"]), None, np.array(st["h"]), None, np.array(float(k)))
+            if not case["carry_multipliers"]:
+                lam_new, _ = gen.multipliers_and_penalties(rng, inst["m"])
+                obj.lam = np.array(lam_new)
+                obj.reset_kappa()
+            hist = []
+
+            def cb(xx, pp, obj=obj, hist=hist):
+                hist.append((onp.array(obj.lam, dtype=float), onp.array(obj.kappa, dtype=float)))
+
+            returned = False
+            with contextlib.redirect_stdout(buf):
+                try:
+                    x = AlSolver.augmented_lagrange_solve(obj, inst["x"], p, alS, subS, callback=cb, useWarmStart=case["warm"])
+                    returned = True
+                except NameError as e:
+                    if "failed to converge" not in str(e):
+                        raise
+            res.count("solves")
+            ninc = orc.trace_check(res, hist, prefix="seq_")
+            if ninc:
+                res.count("runs_with_penalty_increase")
+            res.count("outer_iterations", max(0, len(hist) - 1))
+            _count_settings(res, case, returned)
+            if not returned:
+                inst["alive"] = False
+                continue
+            nret += 1
+            res.count("seq_steps_returned")
+            changed = not (onp.array_equal(st["b"], inst["cur"]["b"]) and onp.array_equal(st["h"], inst["cur"]["h"]))
+            if changed:
+                res.count("seq_%s_steps_p_changed:%s" % ("warm" if case["warm"] else "cold", tag))
+            if not onp.array_equal(st["h"], inst["cur"]["h"]):
+                res.count("seq_steps_constraint_data_changed")
+            res.count("seq_steps_multipliers_carried_over" if case["carry_multipliers"] else "seq_steps_multipliers_reset")
+            res.count("weakly_active_constraints", st["n_weak"])
+            xr = onp.array(x, dtype=float)
+            res.expect("returned_point_finite", bool(onp.all(onp.isfinite(xr))), {"x": xr[:12]})
+            _check_general_return(res, gen, orc, Pk, xr, onp.array(obj.lam, dtype=float), onp.array(obj.kappa, dtype=float),
+                                  inst["kappa0"], tol, {"step": k, "warm": case["warm"], "driver": tag})
+            inst["x"] = x
+            inst["cur"] = st
+    _events(buf.getvalue(), res)
+    if nret == 0:
+        res.vacuous("no load step returned normally")
+    res.nontrivial = nret >= 2
+    return res
+
+
+def _solve_front_sequence(case, res):
+    """One BoundConstrainedObjective reused through bound_constrained_solve for several load steps (p[0] changes)."""
+    import jax.numpy as np
+    from scipy.sparse import csc_matrix
+    from optimism import AlSolver, EquationSolver as es, Objective
+    from optimism import BoundConstrainedObjective as BCO, BoundConstrainedSolver as BCS
+    from vlib.gen import c04_problems as gen
+    from vlib.oracles import c04_kkt as orc
+
+    rng = rng_of(case["seed"])
+    n = case["n"]
+    P, steps = gen.make_front_sequence(rng, n, case["fkind"], case["decades"], case["steps"])
+    idx = P["idx"]
+    kk = len(idx)
+    f, _ = gen.jax_funcs(P, True)
+    tol = case["tol"]
+
+    class PS(Objective.PrecondStrategy):
+        def __init__(self):
+            pass
+
+        def initialize(self, x, pp):
+            self.K = csc_matrix(gen.hess_f(P, onp.array(x, dtype=float)))
+
+    alS = AlSolver.get_settings(penalty_scaling=case["penalty_scaling"], use_second_order_update=case["second_order"],
+                                num_initial_low_order_iterations=case["n_low"], tol=tol,
+                                target_constraint_decrease_factor=case["decrease_factor"], max_al_iters=100)
+    subS = es.get_settings(tol=tol * case["sub_tol_factor"], debug_info=False)
+    buf = io.StringIO()
+    p0 = Objective.Params(np.array(steps[0]["b"]), None, None, None, np.array(0.0))
+    x = np.array(P["x0"])
+    with contextlib.redirect_stdout(buf):
+        if case["scaled"]:
+            bo = BCO.BoundConstrainedObjective(f, x, p0, np.array(idx), constraintStiffnessScaling=case["css"], precondStrategy=PS())
+        else:
+            bo = BCO.BoundConstrainedObjective(f, x, p0, np.array(idx))
+    kappa0 = onp.array(bo.kappa, dtype=float)
+    S = onp.array(bo.scaling, dtype=float) * onp.ones(n)
+    res.expect("scaling_positive_finite", bool(onp.all(onp.isfinite(S)) and onp.all(S > 0)), {"scaling": S[:12]})
+    E = onp.zeros((kk, n))
+    E[onp.arange(kk), idx] = 1.0
+    Hbar = P["A"] / S[:, None] / S[None, :]
+    mubar = float(onp.linalg.eigvalsh(0.5 * (Hbar + Hbar.T))[0])
+    res.count("sequences")
+    cur = steps[0]
+    nret = 0
+    for k in range(1, case["steps"] + 1):
+        st = steps[k]
+        p = Objective.Params(np.array(st["b"]), None, None, None, np.array(float(k)))
+        if not case["carry_multipliers"]:
+            bo.lam = np.array(onp.abs(rng.standard_normal(kk)) * (rng.random(kk) < 0.7))
+        hist = []
+
+        def cb(xx, pp, hist=hist):
+            hist.append((onp.array(bo.lam, dtype=float), onp.array(bo.kappa, dtype=float)))
+
+        returned = False
+        with contextlib.redirect_stdout(buf):
+            try:
+                x = BCS.bound_constrained_solve(bo, x, p, alS, subS, callback=cb, useWarmStart=case["warm"])
+                returned = True
+            except NameError as e:
+                if "failed to converge" not in str(e):
+                    raise
+        res.count("solves")
+        ninc = orc.trace_check(res, hist, prefix="seq_")
+        if ninc:
+            res.count("runs_with_penalty_increase")
+        res.count("outer_iterations", max(0, len(hist) - 1))
+        _count_settings(res, case, returned)
+        if not returned:
+            break
+        nret += 1
+        res.count("seq_steps_returned")
+        res.count("returned_front_end_scaled" if case["scaled"] else "returned_front_end_unscaled")
+        if not onp.array_equal(st["b"], cur["b"]):
+            res.count("seq_%s_steps_p_changed:front" % ("warm" if case["warm"] else "cold"))
+        res.count("seq_steps_multipliers_carried_over" if case["carry_multipliers"] else "seq_steps_multipliers_reset")
+        res.count("weakly_active_constraints", st["n_weak"])
+        xr = onp.array(x, dtype=float)
+        res.expect("returned_point_finite", bool(onp.all(onp.isfinite(xr))), {"x": xr[:12]})
+        mu_orig = onp.array(bo.get_multipliers(), dtype=float)
+        lam = mu_orig / S[idx]
+        kap = onp.array(bo.kappa, dtype=float)
+        xbar = S * xr
+        gf = gen.grad_f(P, xr, b=st["b"]) / S
+        gmag = float(onp.linalg.norm((onp.abs(P["A"]) @ onp.abs(xr) + onp.abs(st["b"]) + onp.abs(gen.f_extra_grad(P, xr))) / S))
+        cv = xbar[idx]
+        al, stat = orc.kkt_check(res, tol, xbar, lam, gf, cv, E, kap, kappa0, gmag, onp.abs(cv), prefix="seq_")
+        xsbar = S * st["xstar"]
+        R = orc.xstar_radius(mubar, al, st["lamstar"] / S[idx]) + 64 * orc.EPS * (1 + onp.linalg.norm(xsbar))
+        res.bound("seq_xstar_distance", float(onp.linalg.norm(xbar - xsbar)), R, {"step": k, "warm": case["warm"], "driver": "front"})
+        res.count("seq_xstar_checked")
+        cur = st
+    _events(buf.getvalue(), res)
+    if nret == 0:
+        res.vacuous("no load step returned normally")
+    res.nontrivial = nret >= 2
+    return res
+
+
 def run_case(case):
     res = Res(case)
+    if case["cls"] in ("seq_al", "seq_alternating"):
+        return _solve_al_sequence(case, res)
+    if case["cls"] == "seq_front":
+        return _solve_front_sequence(case, res)
     if case["cls"].startswith("bound_front"):
         return _solve_front_end(case, res)
     return _solve_general(case, res)
@@ -386,10 +633,10 @@ def finalize(results, tier):
         d = per.setdefault(cls, {"runs": 0, "returned": 0})
         if r.get("status") == "inconclusive":
             continue
-        d["runs"] += 1
+        d["runs"] += int(r.get("obs", {}).get("solves", 1))
         d["returned"] += int(r.get("obs", {}).get("returned", 0))
     missing = []
-    for cls in CONVEX_CLASSES:
+    for cls in CONVEX_CLASSES + SEQ_CLASSES:
         d = per.get(cls)
         if d and d["runs"] and d["returned"] / d["runs"] < MIN_RETURN_RATE:
             missing.append("return rate of class %s = %d/%d < %.0f%%" % (cls, d["returned"], d["runs"], 100 * MIN_RETURN_RATE))
